@@ -1,4 +1,5 @@
 pub mod worker;
+pub mod c01;
 pub mod c10;
 
 use crate::common::*;
@@ -10,6 +11,7 @@ pub const PROPS: [&str; 19] = [
 
 pub fn run(ctx: &Ctx) -> i32 {
     match ctx.prop {
+        "C01" => c01::run(ctx),
         "C10" => c10::run(ctx),
         other => {
             println!("INCONCLUSIVE property={} reason=monitor-not-built", other);
